@@ -1198,19 +1198,19 @@ def run(ctx):
     if ctx.violations:
         return
     ctx.explore('hostile', hostile_cases(), execute_hostile,
-                n=ctx.pick(500, 60000), shrink_budget=40,
+                n=ctx.pick(500, 20000), shrink_budget=40,
                 extra_candidates=_simpler_hostile)
     if ctx.violations:
         return
     ctx.explore('fresh', fresh_cases(), execute_fresh,
-                n=ctx.pick(12, 1500), shrink_budget=20)
+                n=ctx.pick(12, 500), shrink_budget=20)
     if ctx.violations:
         return
     ctx.explore('pipe', pipe_cases(), counted(execute_pipe),
-                n=ctx.pick(625, 60000), shrink_budget=40,
+                n=ctx.pick(625, 20000), shrink_budget=40,
                 extra_candidates=_simpler_pairs)
     if ctx.violations:
         return
     ctx.explore('sock', sock_cases(), counted(execute_sock),
-                n=ctx.pick(30, 2500), shrink_budget=20,
+                n=ctx.pick(30, 1500), shrink_budget=20,
                 extra_candidates=_simpler_pairs)
